@@ -270,6 +270,25 @@ def _vec(ctx, lib, sty, bodies):
     if ok and ok2:
         ok2 = wb.dominates(pre[0]["bb"], drivers[0]["bb"])
     ctx.check(ok2, "SER-VEC", wb, "elements-in-order", wb.span, "then every element, in order, into the same buffer")
+    # the image consists of trait writes only: nothing else touches the buffer, and no path returns without running the element loop
+    NEUTRAL = ("alloc::vec::Vec::reserve", "alloc::vec::Vec::reserve_exact", "alloc::vec::Vec::len", "alloc::vec::Vec::capacity",
+               "alloc::vec::Vec::is_empty")       # calls that cannot change the buffer's contents
+    other = [s for s in S.calls if s not in ws and any(m(Par(2), a) for a in s["args"]) and core.callee_base(s["key"]) not in NEUTRAL]
+    ctx.check(not other, "SER-VEC", wb, "only-trait-writes", wb.loc(other[0]["bb"]) if other else wb.span,
+              "the buffer must be filled only through Serializable::serialize_to_vec (a raw memory image depends on layout, padding and "
+              "endianness); also passed to %s" % sorted({s["key"] for s in other}))
+    if ok and ok2:
+        # (an early return for the empty vector is the only shortcut that writes the same image)
+        def empty(t):
+            return t[0] == "call" and isinstance(t[1], str) and core.callee_base(t[1]).endswith("::is_empty") and len(t[2]) == 1 and m(Par(1), pat_strip(t[2][0]))
+
+        def len0(t):
+            return t[0] == "bin" and t[1] == "Eq" and any(m(C("alloc::vec::Vec::len", Par(1)), x) for x in (t[2], t[3])) and \
+                any(x[0] == "const" and x[1] == 0 for x in (t[2], t[3]))
+        free = cond.explore(S.root, [0], [(empty, False), (len0, False)], stop=[drivers[0]["bb"]])
+        bad = [r for r in wb.return_blocks() if free is None or r in free]
+        ctx.check(not bad, "SER-VEC", wb, "no-path-skips-elements", wb.loc(bad[0]) if bad else wb.span,
+                  "every path through the Vec writer of a non-empty vector runs the element loop")
     RS = Sites(lib, rb)
     rs = order_calls(rb, [s for s in RS.calls if s["name"] == R_])
     okr = len(rs) == 2 and self_ty(rs[0]["c"]) == "u32" and m(Par(1), rs[0]["args"][0])
